@@ -106,7 +106,17 @@ fn run_once(path: &str, steps: &[Step], target: usize, k: Option<u64>, mapped: b
                         if res == "panic" { out.fail(format!("fail-panic k={:?} panic=[{}] {}", k, crate::LAST_PANIC.lock().unwrap(), desc)); return Ok(String::new()); }
                         if !failed { out.fail(format!("fail-not-reported k={:?} result={} {}", k, &res[..res.len().min(200)], desc)); }
                         let after = show_obs(&observe(&*db), true);
-                        if after != before { out.fail(format!("fail-effect-visible k={:?} before={} after={} {}", k, before, after, desc)); }
+                        if after != before {
+                            // class = which kind of query failed and which part of the dump shows its partial effect, so that a
+                            // known finding for one kind does not hide a new one for another
+                            let kind = match s { Step::Exec(q) => q.name().to_string(), Step::Txn(..) => "txn".to_string(), _ => "dump".to_string() };
+                            let (b, a): (Vec<&str>, Vec<&str>) = (before.split(" || ").collect(), after.split(" || ").collect());
+                            let mut parts = vec![];
+                            for (i, name) in ["elements", "aliases", "indexes"].iter().enumerate() {
+                                if b.get(i) != a.get(i) { parts.push(*name); }
+                            }
+                            out.fail(format!("fail-effect-visible:{}:{} k={:?} before={} after={} {}", kind, parts.join("+"), k, before, after, desc));
+                        }
                     }
                 } else {
                     let res = exec_step(db, s);
